@@ -420,7 +420,8 @@ func (ex *Explorer) takeWork(id int) []int {
 func (ex *Explorer) runPath(w *Worker, prefix []int) (in *Interp, res *PathResult) {
 	in = &Interp{eng: ex.eng, w: w, b: w.b, str: &StrOps{b: w.b}, prefix: prefix,
 		globals: map[*ssa.Global]*Obj{}, locks: map[*Obj]int{}, opts: &ex.opts,
-		ufMemo: map[string]interface{}{}, ufApps: map[string][]ufApp{}, ghost: map[string]Value{}}
+		ufMemo: map[string]interface{}{}, ufApps: map[string][]ufApp{}, ghost: map[string]Value{},
+		blobs: map[*SymStr]*blobRec{}, tsGhost: map[*Obj]TimeV{}}
 	in.witness = ex.opts.Witness
 	in.trackAcc = ex.opts.TrackAccess
 	res = &PathResult{}
@@ -500,7 +501,7 @@ func (in *Interp) modelDraws() []DrawValue {
 	for _, d := range in.draws {
 		syms = append(syms, d.Syms...)
 	}
-	r, m := in.w.solver.Model(in.pc, nil, syms)
+	r, m := in.model(nil, syms)
 	if r != Sat {
 		return nil
 	}
@@ -570,3 +571,17 @@ func (ex *Explorer) RunSingle(dec []int) {
 }
 
 var traceOn bool
+
+// addAPITemplate adds harness/api/api_<name>_{sym,native}.go.tmpl to an overlay (symbolic side).
+func addAPITemplate(ov map[string][]byte, repo, pkgRel, pkgName, name string, sym bool) error {
+	kind := "native"
+	if sym {
+		kind = "sym"
+	}
+	data, err := os.ReadFile(filepath.Join(verifRoot(), "harness/api", "api_"+name+"_"+kind+".go.tmpl"))
+	if err != nil {
+		return err
+	}
+	ov[filepath.Join(repo, pkgRel, "zz_verif_api_"+name+".go")] = []byte(strings.Replace(string(data), "package PKG", "package "+pkgName, 1))
+	return nil
+}
